@@ -44,7 +44,8 @@ def spell_limit(n, sp, variant):
         else:
             literal = "\\U%08x" % n if variant % 2 == 0 else c
         quote = "'" if variant % 3 != 1 else '"'
-        return quote + literal + quote
+        prefix = "u" if variant % 4 == 3 else ""  # the documented (Python 2 style) prefix of unicode strings
+        return prefix + quote + literal + quote
     sign = "-" if n < 0 else ""
     if variant % 2 == 1:
         return sign + hex(abs(n))
